@@ -151,9 +151,32 @@ def run_one(name, tiers):
     return row
 
 
+def cross_one(name, results):
+    """Run every OTHER property's quick check against the change: shared code means a change aimed at one property
+    often breaks a neighbouring one, and the neighbouring check may be the one that reports it."""
+    d = os.path.join(SEEDED, name)
+    pid = name.split("-")[0]
+    tmp = scratch_with_patch(os.path.join(d, "patch.diff"))
+    caught = []
+    try:
+        for other in sorted(f[:-3].upper() for f in os.listdir(os.path.join(HERE, "pbt", "props"))
+                            if f.startswith("c") and f.endswith(".py")):
+            if other == pid:
+                continue
+            res = sh([os.path.join(HERE, "check"), other, "--tier", "quick", "--no-evidence"],
+                     env=dict(os.environ, VERIF_REPO=tmp, VERIF_SEED="1"), timeout=3600)
+            if res.returncode == 1:
+                fail = [l.strip() for l in res.stdout.splitlines() if l.strip().startswith("failure:")]
+                caught.append({"check": other, "first_failure": fail[0][:240] if fail else ""})
+    finally:
+        shutil.rmtree(tmp, ignore_errors=True)
+    results.setdefault(name, {})["caught_by_other_checks"] = caught
+    return caught
+
+
 def main():
     ap = argparse.ArgumentParser()
-    ap.add_argument("cmd", choices=["import", "run"])
+    ap.add_argument("cmd", choices=["import", "run", "cross"])
     ap.add_argument("names", nargs="*")
     ap.add_argument("--tier", default="quick")
     ap.add_argument("--all-tiers", action="store_true")
@@ -168,8 +191,18 @@ def main():
     results = {}
     if os.path.exists(results_path):
         results = json.load(open(results_path, encoding="utf-8"))
+    if args.cmd == "cross":
+        for name in names:
+            caught = cross_one(name, results)
+            print("%-8s caught by other checks: %s" % (name, ", ".join(c["check"] for c in caught) or "none"))
+            with open(results_path, "w", encoding="utf-8") as fh:
+                json.dump(results, fh, indent=1, sort_keys=True)
+                fh.write("\n")
+        return 0
     for name in names:
         row = run_one(name, tiers)
+        if name in results and "caught_by_other_checks" in results[name]:
+            row["caught_by_other_checks"] = results[name]["caught_by_other_checks"]
         results[name] = row
         chk = row.get("checks", {})
         det = [t for t, r in chk.items() if r["detected"]]
